@@ -1,9 +1,9 @@
 SPECIFICATION Spec
-CONSTANT MaxIv = 3
-CONSTANT Horizon = 6
-CONSTANT MaxD = 4
-CONSTANT MaxOps = 6
-CONSTANT Stricts = {TRUE}
+CONSTANT MaxIv = 2
+CONSTANT Horizon = 4
+CONSTANT MaxD = 2
+CONSTANT MaxOps = 5
+CONSTANT Stricts = {FALSE}
 CONSTANT T0s = {2}
 CONSTRAINT Bound
 VIEW View
